@@ -84,6 +84,11 @@ CLAIMED = {
     level="Symmetry, sign invariance, bi-invariance and the closed forms are polynomial/trigonometric identities of the code's formulas, decided exactly for all pairs; each `return 0` shortcut must compare +/-q1 with q2 and its tolerance band must lie below the property's smallest angle. The triangle inequality is not an identity and is not decided.",
     note="min/abs/arccos are uninterpreted symmetric atoms; unit quaternions carry declared unit relations; witnesses are sampled on the unit manifold.",
     ref="DESIGN.md §2 C18"),
+ "C07": dict(
+    technique="AVN twin comparison: each vectorised copy is interpreted on a two-row array of independent symbols and every output row must be the identical exact expression the scalar copy yields for that row (classes in both storage orders, hughes/chiaverini, Tilt, SAAM, am_estimation, am2angles, metrics); FLOW rule on option forwarding inside batch routines; DISPATCH rule on the three DCM->quaternion dispatchers",
+    level="Row-wise equality of hand-duplicated formulas is decided exactly for all rows at once (a transposed index or flipped sign in one copy changes its normal form); option forwarding and dispatcher agreement are structural facts over every call site. Bitwise float equality is not decided.",
+    note="Generic arms of data-dependent branches (sign atoms, clip transparent); SAAM compared on unit samples to bound expression size.",
+    ref="DESIGN.md §2 C07"),
 }
 
 NOT_YET = "check not built yet in this session (work in progress; see DESIGN.md §2 for the planned static rules)"
